@@ -40,6 +40,7 @@ def run(tier, seed):
         rep.coverage = {"obligations": po["obligations"], "discharged": 0, "checker_cmd": "lake build WowVerif.Thm.C13", "trusted_base": TRUSTED_BASE_COMMON}
         return rep.finish()
     hreq, dreq, meta = [], [], []
+    n_idx_obl = n_idx_ok = 0
     for (exp, kind), setters in sorted(chosen.items()):
         ints = [s for s in setters if s[1] != "guid"]
         guids = [s for s in setters if s[1] == "guid"]
@@ -79,6 +80,40 @@ def run(tier, seed):
             hreq.append(f"um {exp} {kind} {ops}")
             dreq.append(f"umask {TYPE[kind]} {ops}")
             meta.append((exp, kind, ops))
+        # enum-indexed guid arrays (set_player_field_inv(ItemSlot, Guid)): EVERY enumerator, alone and after other operations; the model
+        # places the guid at the PUBLISHED offset of the array + 2 * enumerator value, whatever the accessor's own arithmetic says
+        if kind == "Player":
+            doc = umt.doc_table({"vanilla": "1.12", "tbc": "2.4.3", "wrath": "3.3.5"}[exp])
+            for (st, gt, en, vals) in umt.indexed_accessors(exp):
+                row = doc.get("Player", {}).get(gt.upper())
+                n_idx_obl += 1
+                if row is None:
+                    rep.violation(f"C13/table/{exp}-Player.{st}", f"{exp} UpdatePlayer::{st}: no published row {gt.upper()} in update-mask.md", {"accessor": st}, no_input=True)
+                    continue
+                off, size, _ty = row
+                if off + 2 * max(vals) + 2 > off + size:
+                    rep.violation(f"C13/table/{exp}-Player.{st}", f"{exp} UpdatePlayer::{st}: enumerator {max(vals)} of {en} addresses words beyond the published field ({size} words at {off})",
+                                  {"accessor": st, "enum": en, "largest": max(vals), "published": [off, size]}, no_input=True)
+                    continue
+                n_idx_ok += 1
+                for v in vals:
+                    lo_, hi_ = rng.below(1 << 32) | 1, rng.below(1 << 32) | 1
+                    for pre in ([], [f"s{a[2]}:7"]) if v % 8 == 0 or v >= 120 else ([],):
+                        hreq.append(f"um {exp} {kind} " + ",".join(pre + [f"i{v}:{lo_}:{hi_}"]))
+                        dreq.append(f"umask {TYPE[kind]} " + ",".join(pre + [f"g{off + 2 * v}:{lo_}:{hi_}"]))
+                        meta.append((exp, kind, ",".join(pre + [f"i{v}:{lo_}:{hi_}"])))
+                for _ in range(6 if tier == "quick" else 60):
+                    sq_h, sq_d = [], []
+                    for _ in range(1 + rng.below(12)):
+                        if rng.below(3):
+                            v = rng.choice(vals); lo_, hi_ = rng.below(1 << 32), rng.below(1 << 32)
+                            sq_h.append(f"i{v}:{lo_}:{hi_}"); sq_d.append(f"g{off + 2 * v}:{lo_}:{hi_}")
+                        else:
+                            o_ = rng.choice([f"s{rng.choice(ints)[2]}:{rng.below(1 << 32)}", "r", "m"])
+                            sq_h.append(o_); sq_d.append(o_)
+                    hreq.append(f"um {exp} {kind} " + ",".join(sq_h))
+                    dreq.append(f"umask {TYPE[kind]} " + ",".join(sq_d))
+                    meta.append((exp, kind, ",".join(sq_h)))
     ho = run_parallel(har, hreq, jobs=12)
     do = run_parallel(drv, dreq, jobs=12)
     n_ok = n_rt = n_rt_untyped = 0
@@ -103,7 +138,7 @@ def run(tier, seed):
         elif rt.startswith("same") or rt.startswith("diff"):
             n_rt_untyped += 1
     rep.coverage = {
-        "obligations": po["obligations"] + n_tab, "discharged": po["discharged"] + n_tab_ok,
+        "obligations": po["obligations"] + n_tab + n_idx_obl, "discharged": po["discharged"] + n_tab_ok + n_idx_ok,
         "checker_cmd": "cd /verif/lean && lake build WowVerif.Thm.C13; python3 /verif/tools/update_mask_tables.py",
         "trusted_base": TRUSTED_BASE_COMMON + ["the Vec<u32> bit-vector representation of header / dirty is abstracted to bit sets (tied by the byte-level correspondence)",
                                                "tools/update_mask_tables.py (regex extraction of accessors and of the published table)"],
